@@ -13,14 +13,43 @@ var c03Lens = [...]int{0, 1, 7, 8, 9, 43, 44, 45, 64, 65, 80, 100, 116, 117, 160
 // (b) buffer manager layout on small memories (length = shape), 1..3 (size, percent) pairs with
 // fully symbolic uint32 sizes and percents (sizes bounded by the mapping's capacity, the rule
 // VerifyConfig enforces), sorted or not, arbitrary previous memory contents.
-func H_C03_buffers() {
+func H_C03_buffers() { c03Buffers(false) }
+
+// H_C03_sized: the same checks with slice sizes and percents taken from small lists (shapes); the
+// previous memory contents and the examined slot stay symbolic. Two and three classes with symbolic
+// sizes or percents on the larger memory lengths are not decided within 20 min (symbolic slot
+// counts drive the creation loops); this grid covers those lengths with concrete configurations.
+func H_C03_sized() { c03Buffers(true) }
+
+var c03Sizes = [...]uint32{1, 4, 8, 20, 44}
+var c03Pcts = [...]uint32{0, 1, 10, 34, 50, 90, 99}
+
+func c03Buffers(sized bool) {
 	L := c03Lens[vfShape("memlen", 0, len(c03Lens)-1)]
 	np := vfShape("pairs", 1, 3)
 	mem := make([]byte, L)
 	vfHavocBytes(mem)
 	var pairs []*SizePercentPair
+	pctSum := uint32(0)
 	for i := 0; i < np; i++ {
 		p := &SizePercentPair{Size: vfU32(), Percent: vfU32()}
+		if sized {
+			p.Size = c03Sizes[vfShape("size", 0, len(c03Sizes)-1)]
+			if p.Size > uint32(L) {
+				vfPrune()
+			}
+			// percents: every class but the last from a list, the last one the remainder (or one
+			// more, so that the sum is wrong)
+			if i < np-1 {
+				p.Percent = c03Pcts[vfShape("pct", 0, len(c03Pcts)-1)]
+				pctSum += p.Percent
+				if pctSum > 100 {
+					vfPrune()
+				}
+			} else {
+				p.Percent = 100 - pctSum + uint32(vfShape("off", 0, 1))
+			}
+		}
 		vfAssume(p.Size <= uint32(L))
 		pairs = append(pairs, p)
 	}
